@@ -124,8 +124,18 @@ def rule_lossy(ctx, rule):
 
 
 def rule_space(ctx, rule):
-    ctx.rule(rule, "no-raw-space: every return path of quote.unquote taken with normalize_space=True passes the space -> %20 rewrite")
+    ctx.rule(rule, "no-raw-space: every return path of quote.unquote taken with normalize_space=True passes the space -> %20 rewrite, and each of the four safely_unquote_* bindings sets normalize_space=True and only_printable=True")
     q = ctx.repo.mod("quote")
+    try:
+        binds = F.unquote_bindings(ctx.repo)
+        for name, part in sorted(binds.items()):
+            pr = F.partial_params(ctx.repo, part)
+            site_b = q.site(ctx.repo.const_node(q, name))
+            ctx.ob(rule, "binding/%s/normalize_space" % name, pr.get("normalize_space") is True,
+                   "%s is bound without normalize_space=True: a raw space survives in the %s ('#section two' vs '#section%%20two')" % (name, F.COMPONENTS[name]), site_b, witness="http://a.com/p#section two")
+            ctx.ob(rule, "binding/%s/only_printable" % name, pr.get("only_printable") is True, "%s is bound without only_printable=True: control escapes are decoded" % name, site_b, witness="%0A")
+    except AnalysisError as e:
+        ctx.undecided(rule, str(e))
     ref = q.func("unquote")
     ex = P.Extractor(ctx.repo, atomic={"ural.quote._generate_unquoted_parts"})
     rets = [r for r in ex.function(ref) if r.kind == "return"]
